@@ -106,6 +106,21 @@ class Sched:
                 self.cv.notify_all()
 
 
+def _S(u):
+    """The URI string the real Swarm is given for the harness' member key u: distinct for distinct keys, but many keys
+    share the last path element (same address on another radio / channel), as legal swarms may."""
+    if isinstance(u, str):
+        return u
+    return 'radio://%d/%d/2M/E7E7E7E7%02X' % ((u // 3) % 2, u, u % 3)
+
+
+def _O(s):
+    """Inverse of _S (strings that are not of that form stand for themselves)."""
+    import re
+    m = re.match(r'^radio://\d+/(\d+)/2M/E7E7E7E7[0-9A-F]{2}$', s) if isinstance(s, str) else None
+    return int(m.group(1)) if m and _S(int(m.group(1))) == s else s
+
+
 class _Err(Exception):
     def __init__(self, k):
         Exception.__init__(self, 'action failed on member %d' % k)
@@ -247,8 +262,8 @@ def make_swarm(world):
 
     class F:
         def construct(self, uri):
-            return world.construct(uri)
-    s = sw.Swarm(world.uris, factory=F())
+            return world.construct(_O(uri))
+    s = sw.Swarm([_S(u) for u in world.uris], factory=F())
     s.Reporter = world.GReporter
     world.bind(s)
     return s
@@ -267,7 +282,7 @@ def _outcome(world, fn):
         fn()
         return ['Returned']
     except KeyError as e:
-        uri = e.args[0] if e.args else None
+        uri = _O(e.args[0]) if e.args else None
         ks = [m.k for m in world.members if m.uri == uri]
         return ['Raised', ['EKey', ks[0] if ks else -1]]
     except _Err as e:
@@ -289,7 +304,7 @@ def run_impl(case):
     script = [tuple(e) for e in case['script']]
     w = World(case['uris'], case['failing'], script)
     ad = case.get('argdict')
-    ad = None if ad is None else {int(k): list(v) for k, v in ad.items()}
+    ad = None if ad is None else {_S(int(k)): list(v) for k, v in ad.items()}
     res = {}
     with gated(w):
         s = make_swarm(w)
@@ -689,13 +704,13 @@ def run_history(case):
 
         def construct(self, uri):
             self.k += 1
-            return M(uri, self.k - 1)
+            return M(_O(uri), self.k - 1)
 
-    s = sw.Swarm(case['uris'], factory=F())
+    s = sw.Swarm([_S(u) for u in case['uris']], factory=F())
     members = list(s._cfs.values())
     pos = {id(m): k for k, m in enumerate(members)}
     objs = [list(o['vals']) if o['kind'] == 'list' else tuple(o['vals']) for o in case['objs']]
-    dicts = [{int(u): objs[i] for u, i in d.items()} for d in case['dicts']]
+    dicts = [{_S(int(u)): objs[i] for u, i in d.items()} for d in case['dicts']]
     before = _snapshot(objs, dicts)
     lock = threading.Lock()
     res = {'members': [[m.uri, m.inst] for m in members], 'before': before, 'steps': []}
@@ -827,7 +842,7 @@ def run_process(case):
 
         def construct(self, uri):
             self.k += 1
-            return M(uri, self.k - 1)
+            return M(_O(uri), self.k - 1)
 
     lock = threading.Lock()
 
@@ -859,7 +874,7 @@ def run_process(case):
                     raise e                                  # __context__ only, __cause__ stays None
             raise e
 
-    swarms = [sw.Swarm(u, factory=F()) for u in case['swarms']]
+    swarms = [sw.Swarm([_S(x) for x in u], factory=F()) for u in case['swarms']]
     out = []
     for r, run in enumerate(case['runs']):
         s = swarms[run['swarm']]
@@ -1006,9 +1021,9 @@ def run_lifecycle(case):
 
         def construct(self, uri):
             self.k += 1
-            return M(uri, self.k - 1)
+            return M(_O(uri), self.k - 1)
 
-    s = sw.Swarm(case['uris'], factory=F())
+    s = sw.Swarm([_S(u) for u in case['uris']], factory=F())
     for k, m in enumerate(s._cfs.values()):
         m.k = k
     body_err = _BodyErr('body')
@@ -1184,7 +1199,7 @@ def run_helpers(case):
 
     class Cf:
         def __init__(self, m):
-            self.link_uri = m.uri
+            self.link_uri = _S(m.uri)
             self.param = Param(m)
 
     class M:
@@ -1204,7 +1219,7 @@ def run_helpers(case):
 
         def construct(self, uri):
             self.k += 1
-            return M(uri, self.k - 1)
+            return M(_O(uri), self.k - 1)
 
     class FakeSyncLogger:
         def __init__(self, scf, log_config):
@@ -1245,7 +1260,7 @@ def run_helpers(case):
     old_sl, old_t = sw.SyncLogger, sw.time
     sw.SyncLogger, sw.time = FakeSyncLogger, FakeTime
     try:
-        s = sw.Swarm(case['uris'], factory=F())
+        s = sw.Swarm([_S(u) for u in case['uris']], factory=F())
 
         def fresh():
             for u in case['uris']:
@@ -1261,13 +1276,13 @@ def run_helpers(case):
         fresh()
         cur.update({'streams': case['pos1'], 'fail': set(), 'fail_in_logger': True})
         o, r = call(s.get_estimated_positions)
-        res['pos1'] = {'outcome': o, 'result': None if r is None else sorted([u, list(p)] for u, p in r.items()),
+        res['pos1'] = {'outcome': o, 'result': None if r is None else sorted([_O(u), list(p)] for u, p in r.items()),
                        'rec': {u: dict(rec[u]) for u in case['uris']}}
         fresh()
         cur.update({'streams': case['pos2'], 'fail': set(case['fail2']), 'fail_in_logger': True})
         o, r = call(s.get_estimated_positions)
-        res['pos2'] = {'outcome': o, 'result': None if r is None else sorted([u, list(p)] for u, p in r.items()),
-                       'positions': sorted([u, list(p)] for u, p in s._positions.items()),
+        res['pos2'] = {'outcome': o, 'result': None if r is None else sorted([_O(u), list(p)] for u, p in r.items()),
+                       'positions': sorted([_O(u), list(p)] for u, p in s._positions.items()),
                        'rec': {u: dict(rec[u]) for u in case['uris']}}
         fresh()
         cur.update({'streams': case['var'], 'fail': set(case['fail_reset']), 'fail_in_logger': False})
@@ -1433,9 +1448,9 @@ def run_linkstate(case):
 
         def construct(self, uri):
             self.k += 1
-            return M(uri, self.k - 1)
+            return M(_O(uri), self.k - 1)
 
-    s = sw.Swarm(case['uris'], factory=F())
+    s = sw.Swarm([_S(u) for u in case['uris']], factory=F())
     members = list(s._cfs.values())
     pos = {m.uri: k for k, m in enumerate(members)}
     by_uri = {m.uri: m for m in members}
@@ -1458,7 +1473,7 @@ def run_linkstate(case):
         else:
             m.close_link()
     ad = case.get('argdict')
-    ad = None if ad is None else {int(k): list(v) for k, v in ad.items()}
+    ad = None if ad is None else {_S(int(k)): list(v) for k, v in ad.items()}
     live0 = set(threading.enumerate())
     try:
         getattr(s, case['call'])(action, ad)
@@ -1838,6 +1853,15 @@ def check_property(case, impl):
     return None
 
 
+COLLIDING_URI_SETS = [
+    ['radio://0/80/2M/E7E7E7E701', 'radio://1/100/2M/E7E7E7E701'],                       # same address, other radio/channel
+    ['radio://0/80/2M', 'radio://1/80/2M', 'radio://0/81/2M/E7E7E7E7E7'],                # no address: tail is the rate
+    ['radio://0/80/2M/E7?rate_limit=1', 'radio://1/80/2M/E7?rate_limit=1'],              # query strings
+    ['radio://0/80/2M/', 'radio://1/80/2M/', 'radio://0/90/2M/E7E7E7E702'],              # trailing slash: empty tail
+    ['radio://0/10/2M/E7E7E7E701', 'radio://0/11/2M/E7E7E7E702', 'radio://1/12/2M/E7E7E7E701'],
+]
+
+
 def run_hold(case, wait=0.15):
     """Ungated run in which the actions of the members in case['hold'] do not finish until the harness lets them:
     the swarm call (made in a helper thread) must not return before.  Costs `wait` seconds on a correct tree."""
@@ -1863,7 +1887,7 @@ def run_hold(case, wait=0.15):
 
         def construct(self, uri):
             self.k += 1
-            return M(uri, self.k - 1)
+            return M(_O(uri), self.k - 1)
 
     def action(scf, *a):
         with lock:
@@ -1877,7 +1901,7 @@ def run_hold(case, wait=0.15):
             with lock:
                 done.add(scf.inst)
 
-    s = sw.Swarm(uris, factory=F())
+    s = sw.Swarm([_S(u) for u in uris], factory=F())
     members = [m.inst for m in s._cfs.values()]
     out = {}
     returned = threading.Event()
@@ -1966,6 +1990,15 @@ def oracle(ctx, deep=False):
             [gen_linkstate(rng, n=(i % 4) + 1 if i < 24 else None) for i in range(ctx.scale(250, 3000) * (3 if deep else 1))]:
         n += 1
         add(check_linkstate(c))
+    # legal URI sets whose members share the last path element; the EARLIER of two such members finishes last / raises late
+    for uris in COLLIDING_URI_SETS:
+        for op in ('parallel_safe', 'parallel', 'open_links'):
+            for late_fail in (False, True):
+                if op == 'parallel' and late_fail:
+                    continue
+                c = {'op': op, 'uris': uris, 'failing': [uris[0]] if late_fail else [], 'hold': [uris[0]], 'kind': 'hold'}
+                n += 1
+                add(check_hold(c))
     # the join: members whose action is held back must hold back the caller
     for i in range(ctx.scale(10, 60)):
         size = rng.randrange(2, 6)
